@@ -55,8 +55,8 @@ example : opIndex .arr 5 4294967296 = .error (.lpc msg_index_arr) := rfl      --
 example : opIndex .buf 5 5 = .error (.lpc msg_index_buf) := rfl               -- b[sizeof(b)] is rejected now
 example : ∃ out, opRange {} .str false true 10 2 3 = .ok out := ⟨_, rfl⟩
 example : ∃ out, opLrange {} .buf false false 5 1 2 4 = .ok out ∧ out.acc.length = 6 := ⟨_, rfl, rfl⟩
-example : errorTouches 16405 97 = [8189, 8190, 8191] := by decide
+example : errorTouches (2 * errBufSize + 21) 97 = [(errBufSize : Int) - 3, (errBufSize : Int) - 2, (errBufSize : Int) - 1] := by decide
 example : errorTouches (-1) 97 = [] := by decide
-example : errDelivered 70000 false = (8190, true) := by decide
+example : errDelivered (8 * errBufSize) false = ((errVsnSize - 1).toNat, true) := by decide
 
 end NV.C01
